@@ -290,7 +290,8 @@ pub fn emit_rust(built: &[Built], seed: u64, tier: &str, want: &dyn Fn(&str) -> 
     for n in ["abset_002", "months", "fan33_set", "only_empty_key_set", "only_empty_key_map", "empty"].iter() { if let Some(i) = by_name(n) { c10.push(i); } }
     c10.extend(pick(built, "ab", if thorough { 12 } else { 2 }, &mut rng, &|b| b.art.kvs.len() >= 2));
     if thorough { for n in ["rootfinal40", "kfinal33", "fan33_deep", "fan256_map", "fan34_set", "uncommon_bytes", "chain"].iter() { if let Some(i) = by_name(n) { c10.push(i); } } }
-    c02.dedup(); c16.dedup(); c10.dedup();
+    fn uniq(v: &mut Vec<usize>) { let mut seen = vec![]; v.retain(|x| if seen.contains(x) { false } else { seen.push(*x); true }); }
+    uniq(&mut c02); uniq(&mut c16); uniq(&mut c10);
 
     let mut emitted_static: Vec<String> = vec![];
     let mut emit_static = |s: &mut String, name: &str, bytes: &[u8]| {
@@ -377,6 +378,7 @@ pub fn emit_rust(built: &[Built], seed: u64, tier: &str, want: &dyn Fn(&str) -> 
         for n in ["fan32_map", "fan33_map", "months", "uncommon_chain", "zero_after_prefix", "rootfinal40", "fan34_set"].iter() { if let Some(i) = by_name(n) { c09.push(i); } }
         c09.extend(pick(built, "ab", if thorough { 10 } else { 1 }, &mut rng, &|b| b.art.kvs.len() >= 3));
         if thorough { for n in ["fan31_map", "fan34_set", "fan255_map", "fan256_map", "boundary", "chain"].iter() { if let Some(i) = by_name(n) { c09.push(i); } } }
+        uniq(&mut c09);
         for &i in &c09 {
             let b = &built[i];
             let name = &b.art.name;
